@@ -193,6 +193,12 @@ def cases(tier, rng, ifaces):
                 k = rng.randint(1, 9); sizes.append(k); left -= k
             op = f"PROC {name} 256 {hx(stream)} {','.join(map(str, sizes))}"
         out.append(Case(op, history_oracle, {'cap': cap, 'events': events, 'kind': 'HISTORY'}))
+    # a queue that holds more entries than a byte can count (interface q300, capacity 300): counts around 256 and around the capacity
+    for nfail in ([255, 256, 257, 300, 303] if tier == 'quick' else [254, 255, 256, 257, 258, 299, 300, 301, 310, 511, 512, 600]):
+        msgs = ['FAIL\n'] * nfail + ['SYST:ERR:COUN?\n', 'SYST:ERR?\n', 'SYST:ERR:COUN?;:SYST:ERR:COUN?\n']
+        events = [('err', '-200')] * nfail + [('count',), ('next',), ('count',), ('count',)]
+        for op in ("RUN q300 std " + hx(''.join(msgs)), "PROC q300 256 " + hx(''.join(msgs)) + ' -'):
+            out.append(Case(op, history_oracle, {'cap': 300, 'events': events, 'kind': 'HISTORY-big'}))
     return out
 
 
